@@ -391,6 +391,11 @@ def _child_epoch(model, base, work, opts, steps, carry):
     ep = Epoch(model, Path(base), Path(work), opts)
     done = 0
     other = None
+    if opts.get('record'):
+        from . import pytest_trace
+        pytest_trace._install()
+        pytest_trace._cur = pytest_trace._Trace('replay')
+        ep.trace = pytest_trace._cur
     for act, exp in steps:
         if act['name'] == 'Restart':
             done += 1
@@ -413,8 +418,8 @@ def _child_epoch(model, base, work, opts, steps, carry):
             other = other or mm
             continue
         if mm:
-            return done, mm, (ep.producer, ep.genof, ep.stepno)
-    return done, (other or []), (ep.producer, ep.genof, ep.stepno)
+            return done, mm, (ep.producer, ep.genof, ep.stepno, getattr(ep, 'trace', None) and ep.trace.ev)
+    return done, (other or []), (ep.producer, ep.genof, ep.stepno, getattr(ep, 'trace', None) and ep.trace.ev)
 
 
 def _final_check(model, base, work, final_state):
@@ -450,11 +455,14 @@ def replay(model: Model, behaviour, opts=None, final=True, tag='b'):
     base, work = root / 'data', root / 'work'
     base.mkdir(exist_ok=True)
     other_mm = None
+    recorded = []
     try:
         i = 0
         while i < len(behaviour):
             try:
-                done, mm, (producer, genof, stepno) = run_forked(_child_epoch, model, str(base), str(work), opts, behaviour[i:], None)
+                done, mm, (producer, genof, stepno, events) = run_forked(_child_epoch, model, str(base), str(work), opts, behaviour[i:], None)
+                if events:
+                    recorded.append(events)
                 opts = dict(opts, _genof=genof, _stepno=stepno)
                 if opts.get('runinfo'):
                     opts = dict(opts, _producer={d: ({k: v for k, v in e.items() if k in ('seq', 'slug')} if d != 'attempt' else e)
@@ -466,14 +474,14 @@ def replay(model: Model, behaviour, opts=None, final=True, tag='b'):
                 other_mm = other_mm or (mm, i + done - 1)
                 mm = []
             if mm:
-                return dict(mismatches=mm, at=i + done - 1, steps=len(behaviour))
+                return dict(mismatches=mm, at=i + done - 1, steps=len(behaviour), events=recorded)
             i += done
         if final and behaviour:
             mm = run_forked(_final_check, model, str(base), str(work), behaviour[-1][1])
             if mm:
                 return dict(mismatches=mm, at=len(behaviour), steps=len(behaviour))
         if other_mm:
-            return dict(mismatches=other_mm[0], at=other_mm[1], steps=len(behaviour))
-        return dict(mismatches=[], at=None, steps=len(behaviour))
+            return dict(mismatches=other_mm[0], at=other_mm[1], steps=len(behaviour), events=recorded)
+        return dict(mismatches=[], at=None, steps=len(behaviour), events=recorded)
     finally:
         shutil.rmtree(root, ignore_errors=True)
